@@ -546,7 +546,25 @@ func (an *accAn) instr(f *ssa.Function, c *accCtx, ins ssa.Instruction, held map
 			rec(an.cellOf(x.X, c, 0), false, "plain", "")
 		}
 	case *ssa.Store:
-		rec(an.cellOf(x.Addr, c, 0), true, "plain", "")
+		dst := an.cellOf(x.Addr, c, 0)
+		rec(dst, true, "plain", "")
+		if emit && dst == "" && isRefType(x.Val.Type()) {
+			if src := an.cellOf(x.Val, c, 0); src != "" {
+				// a reference to package-level state is stored into an object that is not package-level state:
+				// accesses through that object are not in the table
+				an.dynamic["reference to "+src+" stored into a heap object in "+fnName(rootFn(f))+" ("+an.posOf(ins)+")"] = true
+			}
+		}
+	case *ssa.Return:
+		if emit && !c.init {
+			for _, r := range x.Results {
+				if isRefType(r.Type()) {
+					if src := an.cellOf(r, c, 0); src != "" && len(c.bind) == 0 {
+						an.dynamic["reference to "+src+" returned by "+fnName(rootFn(f))+" ("+an.posOf(ins)+")"] = true
+					}
+				}
+			}
+		}
 	case *ssa.MapUpdate:
 		rec(an.cellOf(x.Map, c, 0), true, "plain", "")
 	case *ssa.Lookup:
